@@ -46,7 +46,7 @@ def describe(tier):
             f"EVERY (include, exclude) pair with include a non-empty subset of {U5} or None and exclude any subset or None (1056 pairs), every single "
             "module and every pair of modules as include and as exclude over all 16 modules, include given as list/tuple/set/generator, unknown names; "
             + ("all 2^16 include subsets; " if tier == "thorough" else "") +
-            "oracle: the (module, function) set held by get_analyzers / build_registry equals the expected one, each function exactly once. Keywords: "
+            "user modules named like shipped decoder modules (userplugins.network, userplugins.hex, a top-level shell.py) that use the public @decoder decorator, imported before or after the first build; oracle: the (module, function) set held by get_analyzers / build_registry equals the expected one, each function exactly once. Keywords: "
             f"ALL {2 ** len(KINDS)} subsets of {len(KINDS)} file kinds (empty, blank lines only, LF, CRLF, duplicates and case variants, trailing space, nested "
             "sub-directory, dots in names, the same file name in two directories (with different and with identical word sets), dot-prefixed files and directories; the directory itself named with glob characters / blanks, given as an absolute path and as four relative spellings, and a custom directory literally called 'keywords') are materialised; every non-decoder registry entry is observed behaviourally on a probe text that contains every "
             "word: the (type, value) pairs it reports must be exactly (file name, word) for the non-blank lines of one file, one entry per non-empty file; the "
@@ -85,7 +85,75 @@ def plan(tier, seed):
     if tier == "thorough":
         units += [("all-include", i) for i in range(16)]
     units += [("kwdirs", i) for i in range(64)]
+    units += [("foreign",)]
     return units
+
+
+FOREIGN_CHILD = r"""
+import importlib, json, os, sys, tempfile
+tmp = tempfile.mkdtemp(prefix="c18foreign")
+os.makedirs(os.path.join(tmp, "userplugins"))
+open(os.path.join(tmp, "userplugins", "__init__.py"), "w").close()
+SRC = "from multidecoder.registry import decoder\n\n@decoder\ndef %s(data):\n    return []\n"
+open(os.path.join(tmp, "userplugins", "network.py"), "w").write(SRC % "find_marker")
+open(os.path.join(tmp, "userplugins", "hex.py"), "w").write(SRC % "find_hex")
+open(os.path.join(tmp, "shell.py"), "w").write(SRC % "find_cmd_strings")
+open(os.path.join(tmp, "zzz_plugin.py"), "w").write(SRC % "find_zzz")
+sys.path.insert(0, tmp)
+from multidecoder import registry as mdreg
+from multidecoder.multidecoder import Multidecoder
+order = json.loads(sys.argv[1])
+def snap(reg):
+    return [[e.__module__, e.__name__] for e in reg if getattr(e, "_decoder", False) and hasattr(e, "__name__")]
+out = {}
+def builds(tag):
+    out[tag + ":default"] = snap(mdreg.build_registry())
+    out[tag + ":Multidecoder()"] = snap(Multidecoder().decoders)
+    out[tag + ":include=network"] = snap(mdreg.get_analyzers(include=["network"]))
+    out[tag + ":include=hex,shell"] = snap(mdreg.get_analyzers(include=["hex", "shell"]))
+    out[tag + ":exclude=network"] = snap(mdreg.get_analyzers(exclude=["network"]))
+if order == "import-first":
+    for m in ("userplugins.network", "userplugins.hex", "shell", "zzz_plugin"):
+        importlib.import_module(m)
+    builds("after-import")
+else:
+    builds("before-import")
+    for m in ("userplugins.network", "userplugins.hex", "shell", "zzz_plugin"):
+        importlib.import_module(m)
+    builds("after-import")
+print(json.dumps(out))
+"""
+
+
+def run_foreign(rec, astd):
+    """User code may use the public @decoder decorator in its own modules - also in modules whose last name component equals a shipped decoder
+    module (userplugins.network, a top-level shell.py): the registries still hold exactly the shipped decoder modules' functions."""
+    import json
+    import subprocess
+    import sys
+
+    for order in ("import-first", "build-first"):
+        r = subprocess.run([sys.executable, "-W", "ignore::DeprecationWarning", "-c", FOREIGN_CHILD, json.dumps(order)], capture_output=True, text=True, timeout=300)
+        w = {"kind": "foreign", "order": order}
+        rec.count("evaluations")
+        rec.mark("states", ("foreign", order), True)
+        if r.returncode != 0:
+            rec.violation("C18.total", "foreign-decorated-module-breaks-build", w, f"registry build failed after user modules used @decoder: {core.short(r.stderr, 300)}", 1)
+            continue
+        rec.count("traces")
+        rec.mark("nontrivial", 0, True)
+        for tag, held_ in json.loads(r.stdout).items():
+            rec.count("transitions", len(held_))
+            sel = tag.split(":", 1)[1]
+            inc = {"include=network": ["network"], "include=hex,shell": ["hex", "shell"]}.get(sel)
+            exc = {"exclude=network": ["network"]}.get(sel)
+            exp = sorted(["multidecoder.decoders." + m, f] for m, f in expected(astd, inc, exc))
+            if sorted(held_) != exp:
+                extra = [h for h in held_ if h not in exp]
+                missing = [e for e in exp if e not in held_]
+                rec.violation("C18.decoders.selection", "selection|foreign-decorated-function", dict(w, build=tag),
+                              f"{tag}: with user modules userplugins.network / userplugins.hex / shell / zzz_plugin using @decoder the registry holds extra {extra[:4]} and lacks {missing[:4]}", 1)
+    rec.sample({"family": "foreign-modules-using-@decoder", "orders": ["import-first", "build-first"]})
 
 
 def held(reg):
@@ -211,6 +279,8 @@ def run_unit(unit, rec):
             check_decoders(rec, astd, None, inc, lambda: mdreg.get_analyzers(exclude=conv(inc)), w)
             check_decoders(rec, astd, inc, ["chr"], lambda: mdreg.get_analyzers(include=conv(inc), exclude=conv(["chr"])), w)
         rec.sample({"iterables": ["tuple", "set", "frozenset", "generator", "dict-keys"]})
+    elif kind == "foreign":
+        run_foreign(rec, astd)
     elif kind == "default":
         w = {"kind": "default"}
         for build, label in ((mdreg.build_registry, "build_registry()"), (lambda: Multidecoder().decoders, "Multidecoder().decoders"), (lambda: mdreg.build_registry(""), 'build_registry("")')):
@@ -290,6 +360,8 @@ def replay(w, rec):
         check_decoders(rec, astd, inc, exc, lambda: fn(**kwargs), w)
     elif k == "kwdir":
         run_unit(("kwdirs", w["mask"] % 64), rec)
+    elif k == "foreign":
+        run_unit(("foreign",), rec)
     elif k == "default":
         run_unit(("default",), rec)
     elif k == "iterable":
